@@ -23,6 +23,7 @@ DECIDED = [
     'R4: ConfigList.extend appends every element in iteration order (loop of append).',
     'R5: the container premerge visits every child unconditionally: ComposedNode.on_premerge_impl is a single map_nodes over the direct children calling child.on_premerge(child_path, into).',
     'R6: AppendNode / ExtendNode(value) evaluated on 7 value kinds: a scalar, str, bytes or None becomes the single element, a list / tuple is the content itself.',
+    'R7: ComposedNode.ayns._remove_node evaluated against the lookup contract: a missing path yields None without removing anything, an existing one removes (parent, last name), the node itself is refused.',
 ]
 UNDECIDED = ['frame preservation and composition of several operators as data;', 'detaching a list *element* shifts its siblings (index arithmetic of detach-then-remerge; noted in DESIGN, not claimed).']
 PREMERGE_EXEMPT = {'ClearNode.ayns.on_premerge_impl': 'returns the node it just emptied; self-merge of an empty container is a no-op'}
@@ -344,11 +345,13 @@ def check(repo, run, tier):
     g(r4, repo, run)
     g(r5, repo, run)
     g(unitrules.list_operator_init, repo, run, 'C16.R6')
+    g(unitrules.remove_node_table, repo, run, 'C16.R7')
     g.done()
 
 
 def mutants(repo):
     return [
+        Mutant('remove-node-strict-lookup', lambda r: in_func(r, 'ComposedNode.ayns._remove_node', "names=True, incomplete=None)", "names=True)"), ['C16.R7']),
         Mutant('append-wraps-sequences', lambda r: in_func(r, 'AppendNode.__init__', "if not isinstance(value, Sequence) or isinstance(value, str) or isinstance(value, bytes):", "if not (not isinstance(value, Sequence) or isinstance(value, str) or isinstance(value, bytes)):"), ['C16.R6']),
         Mutant('extend-does-not-detach', lambda r: in_func(r, 'ExtendNode.ayns.on_premerge_impl', "            into.ayns.remove_node(path)\n", ""), ['C16.R1']),
         Mutant('prev-copies-instead-of-moving', lambda r: in_func(r, 'PrevNode.ayns.on_premerge_impl', "node = into.ayns.remove_node(self)", "node = into.ayns.get_node(self)"), ['C16.R1']),
